@@ -106,6 +106,8 @@ func (st LString) Format(f fmt.State, c rune) {
 		} else {
 			defaultFormat(string(st), f, 's')
 		}
+	case 'q':
+		f.Write(quoteLuaString(string(st)))
 	default:
 		defaultFormat(string(st), f, c)
 	}
